@@ -5,3 +5,6 @@ import BalmProofs.Props.C16
 #print axioms Balm.Cache.relNode_obs
 #print axioms Balm.Impl.exclusion_sound
 #print axioms Balm.Impl.ordBelow_own
+#print axioms Balm.Props.C04.all_ops_grow
+#print axioms Balm.Props.C04.expandScc_pres
+#print axioms Balm.Props.C04.expandBlockX_pres
